@@ -226,7 +226,7 @@ class Engine:
                 # the other solvers get a chance on the first few unknowns only: a tree on which many obligations are
                 # undecided is failing anyway, and each attempt costs up to 45 s
                 self._fb_tries = getattr(self, "_fb_tries", 0) + 1
-                fb = self._fallback_backends(self._last) if self._fb_tries <= 4 else None
+                fb = self._fallback_backends(self._last) if self._fb_tries <= getattr(self, "fb_limit", 4) else None
                 if fb is not None:
                     status, reason = "unsat", ""
                     self._fb_backend = fb
@@ -269,13 +269,15 @@ class Engine:
         try:
             with open(path, "w") as f:
                 f.write(txt)
-            for nm, cmd in (("z3-4.8.12-cli", ["/usr/bin/z3", "-T:25", path]),
-                            ("cvc5-1.0.3-cli", ["/usr/bin/cvc5", "--tlimit=20000", path])):
+            backends = [("z3-4.8.12-cli", ["/usr/bin/z3", "-T:25", path]), ("cvc5-1.0.3-cli", ["/usr/bin/cvc5", "--tlimit=%d" % getattr(self, "cvc5_tlimit_ms", 20000), path])]
+            if getattr(self, "fb_first", None) == "cvc5":
+                backends.reverse()
+            for nm, cmd in backends:
                 if not os.path.exists(cmd[0]):
                     continue
                 t0 = time.time()
                 try:
-                    out = subprocess.run(cmd, capture_output=True, text=True, timeout=40).stdout.strip().splitlines()
+                    out = subprocess.run(cmd, capture_output=True, text=True, timeout=40 + getattr(self, "cvc5_tlimit_ms", 20000) // 1000).stdout.strip().splitlines()
                 except Exception:
                     out = []
                 self.solver_s += time.time() - t0
